@@ -229,17 +229,17 @@ theorem extractPureBits_sat {rd : Reader} (img : Img) (hrd : RdOK rd img.inside)
       refine Sat.bind (moduleSize_sat img hrd lt.1 lt.2 ⟨l1, l2, l3, l4⟩) ?_
       intro ms ⟨hms1, hms2⟩
       have hne : ms ≠ 0 := by omega
-      simp only [goDiv, hne, if_false]
+      have hdims : dims lt rb ms = .ok (lt.2, rb.2, lt.1, rb.1, Int.tdiv (rb.1 - lt.1 + 1) ms, Int.tdiv (rb.2 - lt.2 + 1) ms) := by
+        simp [dims, goDiv, hne, bind, Except.bind, pure, Except.pure]
+      rw [hdims]
       show Sat OnlyNotFound Bits.WF
         (if Int.tdiv (rb.1 - lt.1 + 1) ms ≤ 0 ∨ Int.tdiv (rb.2 - lt.2 + 1) ms ≤ 0 then .error .notFound
          else _)
       by_cases hd : Int.tdiv (rb.1 - lt.1 + 1) ms ≤ 0 ∨ Int.tdiv (rb.2 - lt.2 + 1) ms ≤ 0
       · simp only [hd, if_true]; exact rfl
-      · simp only [hd, if_false]
+      · simp only [hd, if_false, nudged]
         have hw := tdiv_pos_spec (rb.1 - lt.1 + 1) ms (by omega) (by omega)
         have hh := tdiv_pos_spec (rb.2 - lt.2 + 1) ms (by omega) (by omega)
-        have h2 : (2 : Int) ≠ 0 := by decide
-        simp only [h2, if_false]
         have hn0 : 0 ≤ Int.tdiv ms 2 := Int.tdiv_nonneg (by omega) (by decide)
         have hn1 : Int.tdiv ms 2 + 1 ≤ ms := by
           rw [Int.tdiv_eq_ediv_of_nonneg (by omega)]; omega
